@@ -59,7 +59,7 @@ ASSUMPTIONS = [
     "no failing reads are injected: the statement gives them no meaning; fault kinds are abandonment of a lazy result, short reads "
     "(read(n) returning fewer than n units before EOF, as pipes and sockets do) and the caller closing its stream once the call has returned",
 ]
-PROBES = ["foreign_environment_in_process", "large_document", "compound_x_stream_form", "lazy_alive_across_another_read", "match_on_empty", "query_values_view", "ctx_passed", "error_parity_case", "compound_operand_raises"]
+PROBES = ["foreign_environment_in_process", "large_document", "compound_x_stream_form", "lazy_alive_across_another_read", "match_on_empty", "query_values_view", "ctx_passed", "error_parity_case", "compound_operand_raises", "intersection_of_lookalike_values"]
 
 LEVELS = ["module", "env", "compiled"]
 METHODS = ["findall", "finditer", "match", "query"]
@@ -86,7 +86,10 @@ def generate(seed: int, config: str, tier: str) -> Dict[str, Any]:
     prof = gen_json.profile(rng)
     want_amp = rng.random() < 0.5
     if want_amp:
-        prof["lookalikes"] = False
+        # values that are equal for Python but not the same JSON value (1, 1.0, true): whether an intersection keeps
+        # them is not fixed by the statement (the fold is not judged there) -- but every entry point must still give
+        # the same answer, so half of the intersection runs keep them
+        prof["lookalikes"] = rng.random() < 0.5
         prof["stringy"] = False
     docs = [gen_json.gen_document(rng, prof) for _ in range(rng.randint(1, 2))]
     if rng.random() < 0.25:
@@ -278,14 +281,22 @@ def _ref(compiled: Any, doc: Any, fctx: Any, text: str) -> "_Ref":
 def _fold(env: Any, q: Dict[str, Any], doc: Any, fctx: Any) -> Any:
     """Left-to-right fold of the operands' own findall results (typed JSON)."""
     try:
-        acc = [core.tj(v) for v in env.compile(q["parts"][0]).findall(copy.deepcopy(doc), filter_context=fctx)]
+        acc = list(env.compile(q["parts"][0]).findall(copy.deepcopy(doc), filter_context=fctx))
+        loose = list(acc)  # the same fold with Python's == (1 == 1.0 == True) instead of JSON-value identity
         for op, part in zip(q["ops"], q["parts"][1:]):
-            r = [core.tj(v) for v in env.compile(part).findall(copy.deepcopy(doc), filter_context=fctx)]
+            r = list(env.compile(part).findall(copy.deepcopy(doc), filter_context=fctx))
             if op == "|":
                 acc = acc + r
+                loose = loose + r
             else:
-                acc = [x for x in acc if x in r]
-        return acc
+                rt = [core.tj(y) for y in r]
+                acc = [x for x in acc if core.tj(x) in rt]
+                loose = [x for x in loose if x in r]
+        strict_l = [core.tj(v) for v in acc]
+        if strict_l != [core.tj(v) for v in loose]:
+            # "values also produced by the right one": same JSON value, or equal for Python?  Not judged.
+            return ("ambiguous", "equality")
+        return strict_l
     except Exception as e:  # noqa: BLE001
         return ("exc", type(e).__name__)
 
@@ -328,7 +339,9 @@ def execute(spec: Dict[str, Any], ctx: Ctx) -> None:
             if q["ops"]:
                 fold = _fold(env, q, d, fctx)
                 vals = r.vals()
-                if isinstance(fold, tuple):
+                if isinstance(fold, tuple) and fold[0] == "ambiguous":
+                    ctx.count("probe.intersection_of_lookalike_values")
+                elif isinstance(fold, tuple):
                     # an operand raises when evaluated alone: the compound may raise too (any of its operands'
                     # classes) or never get to evaluate that operand at all (nothing on the left to restrict)
                     ctx.count("probe.compound_operand_raises")
